@@ -730,7 +730,7 @@ def corr_mu_cp(rng, tier):
             X = dy_mat(rng, 1, int(np.prod(shape)), -3, 3, zero_prob=0.6).reshape(shape)
         Fs = [dy_mat(rng, s, rank, 0.25, 2, zero_prob=0.15) for s in shape]
         w = np.ones(rank) if rng.random() < 0.6 else np.array([rng.choice([0.5, 2.0, 1.0, 0.0 if rank > 1 else 1.5]) for _ in range(rank)])
-        nm = rng.random() < 0.5
+        nm = rng.random() < 0.5 and not (order == 3 and rank > 1)      # normalised order-3 rank-2 runs cost minutes in exact rationals
         fixed = [rng.randrange(order - 1)] if rng.random() < 0.3 else []
         n = rng.choice([0, 1, 1, 2] if (order == 2 and (rank == 1 or (not nm and tier != "quick"))) else [0, 1, 1])    # exact rationals grow fast with the depth
         modes = [m for m in range(order) if m not in fixed]
@@ -1062,6 +1062,8 @@ def corr_tucker_hals(rng, tier):
         order = rng.choice([2, 3, 3])
         shape = tuple(rng.randint(2, 4 if tier != "quick" else 3) for _ in range(order))
         ranks = [rng.randint(1, min(2, s)) for s in shape]
+        if tier == "quick" and order == 3:
+            ranks[rng.randrange(3)] = 1          # a rank-1 mode stops after 2 inner sweeps, the others run their 100: bounds the cost of a case
         klass = rng.choice(["signed", "signed", "nonneg", "negative", "sparse"])
         X = gen_float_tensor(rng, shape, klass)
         Fs = [np.array([[rng.random() + 0.05 for _ in range(r)] for _ in range(s)]) for s, r in zip(shape, ranks)]
@@ -1153,8 +1155,16 @@ def corr_tucker_aset(rng, tier):
         order = rng.choice([2, 3, 3])
         shape = tuple(rng.randint(2, 4 if tier != "quick" else 3) for _ in range(order))
         ranks = [rng.randint(1, min(2, s)) for s in shape]
-        klass = rng.choice(["signed", "signed", "nonneg", "sparse"])
-        X = gen_float_tensor(rng, shape, klass)
+        if tier == "quick" and order == 3:
+            ranks[rng.randrange(3)] = 1
+        klass = rng.choice(["signed", "nonneg", "model", "model", "model"])
+        X = gen_float_tensor(rng, shape, klass if klass != "model" else "signed")
+        if klass == "model":     # a non-negative Tucker tensor with distinct components plus small signed noise: the HALS factors stay well conditioned
+            Gs = [np.array([[0.3 * rng.random() + (1.0 if i % r == j else 0.0) for j in range(r)] for i in range(s)]) for s, r in zip(shape, ranks)]
+            Y = np.array([rng.random() + 0.2 for _ in range(int(np.prod(ranks)))]).reshape(ranks)
+            for kk, Gk in enumerate(Gs):
+                Y = np.moveaxis(np.tensordot(Gk, Y, axes=(1, kk)), 0, kk)
+            X = Y + 0.05 * X
         # columns with distinct dominant rows: the Kronecker product of the Gram matrices stays well conditioned
         Fs = [np.array([[0.3 * rng.random() + 0.02 + (1.0 if i % r == j else 0.0) for j in range(r)] for i in range(s)]) for s, r in zip(shape, ranks)]
         core = np.array([rng.random() + 0.05 for _ in range(int(np.prod(ranks)))]).reshape(ranks)
